@@ -3,9 +3,17 @@
 #![allow(dead_code)]
 
 mod explore;
+mod fakebus;
+mod bank;
+mod refsasl;
+mod refaddr;
+mod refmatch;
+mod refmsg;
 mod sched;
 mod world;
+mod osrv;
 
+mod c10guid;
 mod c30;
 mod c11;
 mod c12;
